@@ -28,6 +28,8 @@ BATCH_HARNESSES = [
           {"maxtx": 2, "exactntx": 1, "maxout": 1, "tickerset": 0, "outpool": 2, "fixedrows": 1}),
     batch("batch-credit-between-spends", "VerifBatch", {"maxtx": 3, "exactntx": 1, "maxout": 1, "tickerset": 0, "outpool": 2, "fixedrows": 1, "shape": 3},
           {"maxtx": 3, "exactntx": 1, "maxout": 1, "tickerset": 1, "outpool": 2, "fixedrows": 1, "shape": 3}, must=("executed", "rejected")),
+    batch("batch-3out", "VerifBatch", {"maxtx": 1, "maxout": 3, "tickerset": 0, "fixedrows": 1, "shape": 1},
+          {"maxtx": 1, "maxout": 3, "tickerset": 0}, must=("executed", "rejected")),
     batch("batch-3tx", "VerifBatch", thorough={"maxtx": 3, "exactntx": 1, "maxout": 1, "tickerset": 0, "outpool": 2, "fixedrows": 1},
           thorough_only=True),
 ]
@@ -83,7 +85,7 @@ PROPS = {
     "C03": {
         "asserts": ["C03.", "uncaught-panic"],
         "harnesses": BATCH_HARNESSES + HOLDING_HARNESSES,
-        "bounds": {"quick": "applyTransactionBatch+recordBatch: 1 tx (<=2 outputs, assets PEG/pUSD/pFCT, outputs to self/other/burn/zero address, all row-presence patterns) and exactly 2 tx (assets PEG/pUSD, outputs to self/other); height, amounts, balances (<2^62), rates, averages symbolic; CHECK constraints on and off",
+        "bounds": {"quick": "applyTransactionBatch+recordBatch: 1 tx (<=2 outputs; and 3 outputs for pure transfers; output amounts are arbitrary uint64, validity is decided by the real ValidData, assets PEG/pUSD/pFCT, outputs to self/other/burn/zero address, all row-presence patterns) and exactly 2 tx (assets PEG/pUSD, outputs to self/other); height, amounts, balances (<2^62), rates, averages symbolic; CHECK constraints on and off",
                    "thorough": "1 tx over 5 assets; 1..2 tx over 3 assets with all output addresses and row patterns; exactly 3 tx over PEG/pUSD"},
         "assumptions": BATCH_ASSUMPTIONS,
     },
@@ -147,9 +149,12 @@ PROPS = {
              "params": {"quick": {"both": 2, "extras": 0, "assets": 1, "order": 1, "positive": 1, "permute_budget": 1, "fixrates": 1},
                         "thorough": {"both": 3, "extras": 0, "assets": 1, "order": 1, "positive": 1, "permute_budget": 1, "fixrates": 1}},
              "must_cover": ["paid", "capped", "uncapped"], "replay_mode": "order", "native_repeat": 24, "max_witness_replays": 3},
+            {"id": "averages", "func": "VerifAverages", "pkg": NODE, "pkgname": "node", "load": ["./node"],
+             "params": {"quick": {"period": 3, "heights": 6}, "thorough": {"period": 4, "heights": 9}},
+             "must_cover": ["three-or-more-rated", "few-rated"], "max_witness_replays": 4},
         ],
         "wall": {"quick": 400, "thorough": 3000},
-        "bounds": {"quick": "order oracle = any permutation of one map iteration or one unstable sort per run (deviation budget 1); supply set with <=2 requests; SnapshotPayouts with 2 eligible stakers (1 asset, concrete rates, symbolic balances incl. exact ties)",
+        "bounds": {"quick": "(process history) the averaging cache of a daemon that lived through the chain vs one restarted before any rated block, as C09; order oracle = any permutation of one map iteration or one unstable sort per run (deviation budget 1); supply set with <=2 requests; SnapshotPayouts with 2 eligible stakers (1 asset, concrete rates, symbolic balances incl. exact ties)",
                    "thorough": "3 requests / 3 stakers"},
         "assumptions": ["map iteration order and unstable-sort order are the only process-dependent inputs modelled; goroutine scheduling in multiFetch and tie handling inside the grader dependency are outside (DESIGN §9)",
                         "SQLite row order of SELECT without ORDER BY is a function of table content (row ids)"],
@@ -163,10 +168,13 @@ PROPS = {
             {"id": "snapshot-alloc", "func": "VerifSnapshot", "pkg": NODE, "pkgname": "node", "load": ["./node"],
              "params": {"quick": {"both": 3, "extras": 0, "assets": 1, "positive": 1, "fixrates": 1}, "thorough": {"both": 3, "extras": 0, "assets": 1}},
              "must_cover": ["paid", "capped", "uncapped"], "max_witness_replays": 4},
+            {"id": "snapshot-valuation", "func": "VerifSnapshot", "pkg": NODE, "pkgname": "node", "load": ["./node"],
+             "params": {"quick": {"both": 1, "extras": 0, "assets": 2}, "thorough": {"both": 1, "extras": 0, "assets": 3}},
+             "must_cover": ["paid", "capped", "uncapped"], "max_witness_replays": 4},
             SYNCBLOCK,
         ],
         "wall": {"quick": 400, "thorough": 3000},
-        "bounds": {"quick": "SnapshotPayouts at the first snapshot heights >= 2.0 and >= 2.0.2: (a) 2 addresses in both snapshots + 1 only-new + 1 only-old, 1 non-PEG asset, symbolic balances in both snapshots, symbolic rates incl. 0; (b) 3 eligible stakers, concrete rates",
+        "bounds": {"quick": "SnapshotPayouts at the first snapshot heights >= 2.0 and >= 2.0.2: (a) 2 addresses in both snapshots + 1 only-new + 1 only-old, 1 non-PEG asset (pEUR), symbolic balances in both snapshots, symbolic rates incl. 0; (b) 3 eligible stakers, concrete rates; (c) 1 staker holding 2 non-PEG assets (pEUR, pXBT) with independent symbolic rates incl. 0 and a symbolic pUSD rate",
                    "thorough": "(a) with 2 assets, (b) with symbolic rates"},
         "assumptions": ["USD value of one holding fits int64 and stakes fit uint64 (DESIGN §8 preconditions)", "balances < 2^62",
                         "trigger condition (height % 144, snapshot taken before balance changes) is SyncBlock glue: see C15/C02 glue harness"],
@@ -208,7 +216,7 @@ PROPS = {
              "params": {"quick": {"period": 3, "heights": 6}, "thorough": {"period": 4, "heights": 9}},
              "must_cover": ["three-or-more-rated", "few-rated"], "max_witness_replays": 6},
         ],
-        "bounds": {"quick": "averaging period P=3 (package variable; the code is uniform in P, mainnet uses 288), chain of 6 heights with every rated/unrated pattern, 2 assets (one appearing later), rates symbolic in [1, 2^40]; a restarted daemon is compared at EVERY rated block (so every set of restart heights)",
+        "bounds": {"quick": "averaging period P=3 (package variable; the code is uniform in P, mainnet uses 288), chain of 6 heights (starting at height 1, or straddling the PIP-10 activation height) with every rated/unrated pattern, 2 assets (one appearing later), rates symbolic in [1, 2^40]; a restarted daemon is compared at EVERY rated block (so every set of restart heights)",
                    "thorough": "P=4, 9 heights"},
         "assumptions": ["all other consensus inputs are read from the database (checked by reading SyncBlock: rates, holding, balances, bank, snapshots go through SQL); the rolling-average cache is the only in-memory state that influences results",
                         "rates are non-zero (a recorded 0 counts as missing in both paths alike)"],
@@ -259,11 +267,20 @@ PROPS = {
              "params": {"quick": {}, "thorough": {}}, "must_cover": ["both", "opr-only", "spr-only", "no-winners"], "max_witness_replays": 6},
             {"id": "insert-rates", "func": "VerifInsertRates", "pkg": NODE, "pkgname": "node", "load": ["./node"],
              "params": {"quick": {}, "thorough": {}}, "must_cover": ["inserted", "undefined-phase"], "max_witness_replays": 5},
+            {"id": "rate-band-legacy-v0", "func": "VerifRateBandLegacy", "pkg": NODE, "pkgname": "node", "load": ["./node"],
+             "params": {"quick": {"era": 0, "ratebits": 30}, "thorough": {"era": 0, "ratebits": 50}},
+             "must_cover": ["inside", "outside", "edge-high", "edge-low"], "max_witness_replays": 8},
+            {"id": "rate-band-legacy-10", "func": "VerifRateBandLegacy", "pkg": NODE, "pkgname": "node", "load": ["./node"],
+             "params": {"quick": {"era": 1, "ratebits": 30}, "thorough": {"era": 1, "ratebits": 50}},
+             "must_cover": ["inside", "outside", "edge-high", "edge-low"], "max_witness_replays": 8},
             SYNCBLOCK,
         ],
-        "bounds": {"quick": "GetAssetRates for heights >= 2.0.2 (25 % band), 3 assets, every OPR/SPR rate in [0, 2^50], either winner absent; InsertRates for the three pricing phases (+ undefined), 3 assets, rates < 2^62, issuance from two symbolic holders", "thorough": "same"},
-        "assumptions": ["float64 modelled exactly as dyadic rationals; rates < 2^50 so that float64(rate)*1.25 and *0.75 are exact (the engine ends a path as unsupported if a product could need rounding)",
-                        "NOT covered: the closed-era bands (10 %, 1 %, 0.1 %) whose constants are not dyadic and need IEEE rounding; the SyncBlock glue (phase/band by height, no winners => no rates and no holding pass) needs the glue harness",
+        "wall": {"quick": 400, "thorough": 3000},
+        "bounds": {"quick": "GetAssetRates for heights >= 2.0.2 (25 % band), 3 assets, every OPR/SPR rate in [0, 2^50], either winner absent; closed-era bands (GetAssetRatesV0: 1 % / 0.1 % by staking-rate threshold; GetAssetRates in [dev-rewards, 2.0.2): 10 %) for one asset with OPR and SPR rate in [0, 2^30), IEEE rounding followed exactly; InsertRates for the three pricing phases (+ undefined), 3 assets, rates < 2^62, issuance from two symbolic holders",
+                   "thorough": "same with closed-era rates in [0, 2^50)"},
+        "assumptions": ["float64 modelled as exact dyadic rationals with IEEE round-to-nearest-even applied to every product/sum that is not representable (fork per binade); validated on every run by native replays of band-edge witnesses (opr exactly on the rounded threshold) on the hardware floats",
+                        "closed-era band specification = the documented formula spr*(1-t) <= opr <= spr*(1+t) evaluated in float64 with the era's t (recorded consensus followed the float computation), cross-checked against the exact rational band up to one base unit at its edges",
+                        "closed-era bands: one symbolic asset (plus one fixed in-band asset); rates >= 2^50 outside",
                         "a PEG price above 2^63 (equation phase) cannot be stored and is outside the claim"],
     },
     "C13": {
